@@ -1147,8 +1147,10 @@ func addLinkage(m *Module, st *Stmt) {
 
 func (g *gen) breakSomething() {
 	t := g.t
-	op := t.Draw(28)
-	if op >= 22 {
+	op := t.Draw(30)
+	if op >= 28 {
+		op = 22
+	} else if op >= 22 {
 		op = 3 + (op-22)%3 // the reference-cycle shapes (typedefs, identities, features) get three times the weight of the other operators
 	}
 	mods := g.mods
@@ -1369,6 +1371,47 @@ func (g *gen) breakSomething() {
 			tn := g.name("t")
 			m.Root.Add(S("typedef", tn, S("type", "int8", S("range", "0..10"))), S("leaf", g.name("l"), S("type", tn, S("range", "5..20"))))
 			g.set.Ops = append(g.set.Ops, "bad-range-widening")
+		}
+	case 22: // a module or submodule refers to its OWN definitions through its own prefix (in a submodule: the belongs-to prefix), plainly or as one step of a cycle
+		{
+			target := m
+			for _, x := range g.set.Mods {
+				if x.Sub && t.Coin() {
+					target = x
+					break
+				}
+			}
+			g.set.Touched = append(g.set.Touched, target)
+			pfx := target.Prefix
+			a, b := g.name("own"), g.name("own")
+			switch t.Draw(4) {
+			case 0: // grouping cycle, one step prefixed
+				target.Root.Add(S("grouping", a, S("leaf", g.name("l"), S("type", "string")), S("uses", b)))
+				target.Root.Add(S("grouping", b, S("uses", pfx+":"+a)))
+				if t.Coin() {
+					target.Root.Add(S("container", g.name("c"), S("uses", []string{a, pfx + ":" + b}[t.Draw(2)])))
+				}
+				g.set.Ops = append(g.set.Ops, "own-prefix-grouping-cycle")
+			case 1: // typedef cycle, one step prefixed
+				target.Root.Add(S("typedef", a, S("type", b)))
+				target.Root.Add(S("typedef", b, S("type", pfx+":"+a)))
+				if t.Coin() {
+					target.Root.Add(S("leaf", g.name("l"), S("type", []string{a, pfx + ":" + b}[t.Draw(2)])))
+				}
+				g.set.Ops = append(g.set.Ops, "own-prefix-typedef-cycle")
+			case 2: // identity cycle, one step prefixed
+				target.Root.Add(S("identity", a, S("base", b)))
+				target.Root.Add(S("identity", b, S("base", pfx+":"+a)))
+				g.set.Ops = append(g.set.Ops, "own-prefix-identity-cycle")
+			default: // plain, legal references through the own prefix
+				target.Root.Add(S("grouping", a, S("leaf", g.name("l"), S("type", "string"))))
+				target.Root.Add(S("typedef", b, S("type", "int8")))
+				target.Root.Add(S("container", g.name("c"), S("uses", pfx+":"+a), S("leaf", g.name("l"), S("type", pfx+":"+b))))
+				g.set.Ops = append(g.set.Ops, "own-prefix-references")
+			}
+			if target.Sub {
+				g.set.Probes["own_prefix_used_in_submodule"] = true
+			}
 		}
 	case 21: // identities with the SAME local name in different modules, derived from one base (legal YANG)
 		{
